@@ -100,6 +100,7 @@ type gen struct {
 	fresh      int
 	stdinDirty bool
 	pending    map[string]string // kinds of columns added by the operation under construction
+	subOuter   []bnd             // non-nil: expressions and predicates may hold scalar subqueries; the tables of the enclosing statement
 	ops        []opT
 }
 
@@ -224,6 +225,14 @@ func (g *gen) colNodes(bs []bnd, kind string, exclude map[string]bool) []node {
 
 // expr draws a value expression of the kind over the bindings.
 func (g *gen) expr(kind string, bs []bnd, exclude map[string]bool) node {
+	if g.subOuter != nil && g.pct("subq", 28) {
+		if n, ok := g.subq(kind, exclude); ok {
+			if kind == "int" && g.pct("subq_plus", 30) {
+				return nBin("add", n, nInt(int64(g.rng("k", 1, 5))))
+			}
+			return n
+		}
+	}
 	same := g.colNodes(bs, kind, exclude)
 	if kind == "int" {
 		w := []int{30, 25, 15, 8, 7, 10, 5}
@@ -270,6 +279,85 @@ func (g *gen) expr(kind string, bs []bnd, exclude map[string]bool) node {
 		return nBin("cat", fw.PickU(g.t, "col", same), fw.PickU(g.t, "col2", same))
 	}
 	return nNull()
+}
+
+// subq draws a scalar subquery (SELECT f(z.c) FROM tab z [WHERE ...]) over the
+// target of the enclosing statement or the other table, optionally correlated
+// with the row of the enclosing statement.
+func (g *gen) subq(kind string, exclude map[string]bool) (node, bool) {
+	outer := g.subOuter
+	g.subOuter = nil
+	defer func() { g.subOuter = outer }()
+	tab := outer[0].tab
+	if names := g.m.names(); len(names) > 1 && g.pct("subq_other", 35) {
+		for _, t := range names {
+			if t != tab {
+				tab = t
+				break
+			}
+		}
+	}
+	n := node{K: "subq", Q: tab}
+	ints, strs := g.colsOfKind(tab, "int", nil), g.colsOfKind(tab, "str", nil)
+	if kind == "int" {
+		w := []int{25, 20, 10, 12, 13, 20}
+		if len(ints) == 0 {
+			w = []int{0, 0, 0, 0, 1, 0}
+		}
+		n.Op = []string{"sum", "max", "min", "count", "countall", "one"}[fw.Weighted(g.t, "subq_fn", w)]
+		if n.Op != "countall" {
+			n.C = fw.PickU(g.t, "subq_col", ints)
+		}
+	} else {
+		if len(strs) == 0 {
+			return n, false
+		}
+		n.Op, n.C = "one", fw.PickU(g.t, "subq_col", strs)
+	}
+	if n.Op == "one" || g.pct("subq_where", 55) {
+		var oc []node
+		for _, b := range outer {
+			for _, c := range g.colsOfKind(b.tab, "int", exclude) {
+				oc = append(oc, nCol(b.tab, c))
+			}
+		}
+		corr := 50
+		if n.Op == "one" {
+			corr = 75
+		}
+		switch {
+		case len(ints) > 0 && len(oc) > 0 && g.pct("subq_correlated", corr):
+			zc := ints[0] // the first integer column is the key-like one
+			if g.pct("otherkey", 25) {
+				zc = fw.PickU(g.t, "zkey", ints)
+			}
+			o := "="
+			if n.Op != "one" || g.pct("nonequi", 15) {
+				o = fw.PickU(g.t, "relop", relOps)
+			}
+			n.A = []node{nCmp(o, nCol(subqAlias, zc), fw.PickU(g.t, "outercol", oc))}
+		case n.Op == "one" && len(ints) > 0:
+			n.A = []node{nCmp("=", nCol(subqAlias, ints[0]), g.pivot(bnd{subqAlias, tab}, ints[0], "int"))}
+		default:
+			if p, ok := g.pred([]bnd{{subqAlias, tab}}); ok {
+				n.A = []node{p}
+			}
+		}
+	}
+	if n.Op == "one" {
+		// more than one record is an error in csvq: fall back to an aggregate where that would happen
+		ot := g.m.tabs[outer[0].tab]
+		for _, row := range ot.Rows {
+			if _, err := evalVal(n, env{{q: outer[0].tab, tab: ot, row: row, m: g.m}}); err != nil {
+				if kind != "int" {
+					return n, false
+				}
+				n.Op = "max"
+				break
+			}
+		}
+	}
+	return n, true
 }
 
 // existing: the non-NULL values of a column as literals.
@@ -330,6 +418,11 @@ func (g *gen) atom(bs []bnd) (node, bool) {
 	}
 	c := cs[fw.Weighted(g.t, "predcol", ws)]
 	col := nCol(c.b.q, c.c)
+	if c.k == "int" && g.subOuter != nil && g.pct("subq_atom", 22) {
+		if n, ok := g.subq("int", nil); ok {
+			return nCmp(fw.PickU(g.t, "relop", relOps), col, n), true
+		}
+	}
 	if c.k == "int" {
 		others := g.colNodes(bs, "int", map[string]bool{c.b.tab + "." + c.c: true})
 		w := []int{53, 15, 12, 12, 8}
@@ -479,6 +572,8 @@ func (g *gen) selectList(T string, cols []string, O string) []node {
 func (g *gen) genInsel(T, O string) (opT, bool) {
 	room := maxRows - len(g.m.tabs[T].Rows)
 	op := opT{K: "insel", T: T, O: O, Ext: g.ext(T, O)}
+	g.subOuter = []bnd{{O, O}}
+	defer func() { g.subOuter = nil }()
 	cols := g.m.tabs[T].Cols
 	if g.pct("collist", 55) {
 		op.Cols = g.pickCols(T, nil)
@@ -515,6 +610,8 @@ func (g *gen) genInsel(T, O string) (opT, bool) {
 
 func (g *gen) genUpdate(T string) (opT, bool) {
 	op := opT{K: "update", T: T, Ext: g.ext(T)}
+	g.subOuter = []bnd{{T, T}}
+	defer func() { g.subOuter = nil }()
 	cols := rapid.Permutation(append([]string(nil), g.m.tabs[T].Cols...)).Draw(g.t, "setcols")
 	n := 1
 	if len(cols) > 1 && g.pct("twoset", 30) {
@@ -550,6 +647,8 @@ func (g *gen) genUpdate(T string) (opT, bool) {
 
 func (g *gen) genDelete(T string) (opT, bool) {
 	op := opT{K: "delete", T: T, Ext: g.ext(T)}
+	g.subOuter = []bnd{{T, T}}
+	defer func() { g.subOuter = nil }()
 	if g.pct("where", 92) {
 		op.Where = g.aimed([]bnd{{"", T}}, func(p *node) (string, error) {
 			o := op
@@ -781,6 +880,8 @@ func (g *gen) genRepsel(T, O string) (opT, bool) {
 		return opT{}, false
 	}
 	room := maxRows - len(g.m.tabs[T].Rows)
+	g.subOuter = []bnd{{O, O}}
+	defer func() { g.subOuter = nil }()
 	for attempt := 0; attempt < 3; attempt++ {
 		op := opT{K: "repsel", T: T, O: O, Ext: g.ext(T, O), Keys: keys}
 		op.Cols = g.pickCols(T, keys)
@@ -1525,6 +1626,34 @@ func checkHist(c histCase) (fw.Outcome, *fw.Violation) {
 		if c.naming().kind[st.op.T] == "stdin" {
 			class("on_stdin:" + st.op.K)
 		}
+		{
+			reads, corr, any := map[string]bool{}, false, false
+			for _, x := range st.op.Set {
+				if hasSubq(x.E, reads, &corr) {
+					any = true
+					class("subq:in_set")
+				}
+			}
+			for _, x := range st.op.Sel {
+				if hasSubq(x, reads, &corr) {
+					any = true
+					class("subq:in_select_list")
+				}
+			}
+			if st.op.Where != nil && hasSubq(*st.op.Where, reads, &corr) {
+				any = true
+				class("subq:in_where")
+			}
+			if any {
+				tok += "q"
+				if reads[st.op.T] {
+					class("subq:reads_target")
+				}
+				if corr {
+					class("subq:correlated")
+				}
+			}
+		}
 		if ef.changed {
 			changing++
 			kinds[st.op.K] = true
@@ -1616,10 +1745,11 @@ func TestC05History(t *testing.T) {
 	fw.Run(t, fw.Spec[histCase]{
 		ID: "C05", Name: "dml_history", Quick: 10000, Thorough: 200000,
 		Gen: genCase, Check: checkHist,
-		Rule: "tables t (CSV file, temporary table or STDIN) and optionally u (file or temporary table), 2-4 columns (integer-like id/v/w, string s; NULLs, duplicate ids), 0-6 rows, and a history of 3-12 statements generated up front next to a live copy of the model: INSERT VALUES (column subset / permuted list), INSERT SELECT (expressions, WHERE, ORDER BY on a total order; other table or itself), UPDATE (1-2 SET items), UPDATE..FROM (JOIN / LEFT JOIN / comma join, aliases, one or two targets), DELETE, multi-table DELETE, REPLACE USING(1-2 keys) VALUES / SELECT, ALTER TABLE ADD (one/several, DEFAULT literal/expression, FIRST/LAST/BEFORE/AFTER) / DROP / RENAME, COMMIT, ROLLBACK; predicates (relational operators, AND/OR/NOT, IS NULL, IN, arithmetic) are aimed at strict non-empty subsets. Each history is executed statement by statement on one in-process session at --cpu 1 and again at --cpu 4; after every step SELECT * of every table equals the model (column names and order, row order, cell text, NULL-ness), Tx.AffectedRows and the 'N record(s) <verb> on <table>' log lines equal the model's inserted/matched/removed counts; after COMMIT every file re-read by a fresh session equals the model; after ROLLBACK the model is the last committed state. Non-trivial = at least 3 data-changing steps of at least 2 kinds, one of which matches a strict non-empty subset of its target's rows; distinct by (table kinds, sequence of rule names with their match class)",
+		Rule: "tables t (CSV file, temporary table or STDIN) and optionally u (file or temporary table), 2-4 columns (integer-like id/v/w, string s; NULLs, duplicate ids), 0-6 rows, and a history of 3-12 statements generated up front next to a live copy of the model: INSERT VALUES (column subset / permuted list), INSERT SELECT (expressions, WHERE, ORDER BY on a total order; other table or itself), UPDATE (1-2 SET items), scalar subqueries (SUM/MAX/MIN/COUNT/single value over the target or the other table, optionally correlated) in SET values, WHERE clauses of UPDATE/DELETE and in INSERT/REPLACE..SELECT (all read the state before the statement), UPDATE..FROM (JOIN / LEFT JOIN / comma join, aliases, one or two targets), DELETE, multi-table DELETE, REPLACE USING(1-2 keys) VALUES / SELECT, ALTER TABLE ADD (one/several, DEFAULT literal/expression, FIRST/LAST/BEFORE/AFTER) / DROP / RENAME, COMMIT, ROLLBACK; predicates (relational operators, AND/OR/NOT, IS NULL, IN, arithmetic) are aimed at strict non-empty subsets. Each history is executed statement by statement on one in-process session at --cpu 1 and again at --cpu 4; after every step SELECT * of every table equals the model (column names and order, row order, cell text, NULL-ness), Tx.AffectedRows and the 'N record(s) <verb> on <table>' log lines equal the model's inserted/matched/removed counts; after COMMIT every file re-read by a fresh session equals the model; after ROLLBACK the model is the last committed state. Non-trivial = at least 3 data-changing steps of at least 2 kinds, one of which matches a strict non-empty subset of its target's rows; distinct by (table kinds, sequence of rule names with their match class)",
 		Assumptions: []string{
 			"UPDATE counts the records matched by the condition (changed or not), per property statement; REPLACE counts the records whose key matched plus the rows appended",
 			"SET expressions never read a column assigned by another SET item of the same statement (evaluation order not documented); a record to update that is joined more than once, updating the NULL-extended side of a LEFT JOIN, ORDER BY keys with ties or NULLs, REPLACE rows with duplicate or NULL keys are outside the modelled fragment: the history is cut there (measured as history_cut:*)",
+			"a scalar subquery inside a data-changing statement reads the tables as they were before the statement (the manual says nothing else; textbook semantics); SUM returns a float whose text equals the integer sum (cells are compared by text)",
 			"tables keep at least two columns (a one-column record with a NULL cell is a blank CSV line: C02)",
 			"the row order of SELECT over one table of at most 10 rows is the table's row order at --cpu 1 and --cpu 4",
 			"avoidReplaceUnmatchedOrder: REPLACE is generated with at most one row that matches no record (known open defect: several such rows are appended in Go-map order)",
